@@ -145,7 +145,7 @@ package websocket
 //@     assumes decode_ok(msg) && joined(h)
 //@     ensures {C04} result == nil
 //@     ensures {C10,C01} !old(eid in S.entities) && eid in S.entities && S.entities[eid].ID == eid
-//@     ensures {C05,C01} S.entities[eid].ParticipantID == P.ID && S.entities[eid].Persist == req.Persist && S.entities[eid].Flag == req.Flag
+//@     ensures {C05,C01,C06} S.entities[eid].ParticipantID == P.ID && S.entities[eid].Persist == req.Persist && S.entities[eid].Flag == req.Flag
 //@     ensures {C11,C01} req.Pose != nil ==> S.entities[eid].pose.PX == req.Pose.Px && S.entities[eid].pose.PY == req.Pose.Py && S.entities[eid].pose.PZ == req.Pose.Pz && S.entities[eid].pose.RX == req.Pose.Rx && S.entities[eid].pose.RY == req.Pose.Ry && S.entities[eid].pose.RZ == req.Pose.Rz && S.entities[eid].pose.RW == req.Pose.Rw
 //@     ensures {C05,C01} forall e: uint32 :: e != eid ==> ((e in S.entities) <==> old(e in S.entities)) && (e in S.entities ==> S.entities[e] == old(S.entities[e]))
 //@     ensures {C06,C01} eid in P.entityIDs
@@ -634,8 +634,8 @@ package websocket
 //@     ensures {C06,C01} forall e: uint32 :: e in S.entities ==> S.entities[e] == old(S.entities[e])
 //@     ensures {C06,C12,C01} forall t: uint32, e: uint32 :: (hasComp(C, t, e) <==> (old(hasComp(C, t, e)) && !old(gone(S, P.ID, e)))) && (hasComp(C, t, e) ==> compAt(C, t, e) == old(compAt(C, t, e)))
 //@     ensures {C06,C13,C01} forall t: uint32, p: uint32 :: subscribed(C, t, p) <==> (old(subscribed(C, t, p)) && p != P.ID)
-//@     ensures {C06,C01} forall p: uint32 :: (p in S.participants) <==> (old(p in S.participants) && p != P.ID)
-//@     ensures {C06,C01} forall p: uint32 :: p in S.participants ==> S.participants[p] == old(S.participants[p])
+//@     ensures {C06,C01,C03} forall p: uint32 :: (p in S.participants) <==> (old(p in S.participants) && p != P.ID)
+//@     ensures {C06,C01,C03} forall p: uint32 :: p in S.participants ==> S.participants[p] == old(S.participants[p])
 //@     ensures {C06,C02,C01} forall e: uint32 :: evcount(Broadcast, hagallpb.EntityDeleteBroadcast, EntityId, e) == old(evcount(Broadcast, hagallpb.EntityDeleteBroadcast, EntityId, e)) + ite(old(gone(S, P.ID, e)) && !flag(h.FeatureFlags, featureflag.FlagDisableEntityDeleteBroadcast), 1, 0)
 //@     ensures {C07,C01} (len(S.participants) == 0) <==> !registered(R, S)
 //@     ensures {C07,C01} len(S.participants) == 0 ==> once_done(S.closeOnce)
@@ -738,7 +738,7 @@ package websocket
 //@     assumes decode_ok(msg) && !already && joined(h) && (sid == "" || found)
 //@     ensures {C04} result == nil && joined(h)
 //@     ensures {C01} !flag(h.FeatureFlags, featureflag.FlagDisableSessionState) ==> snapParts(h.currentSession, PS) && snapEnts(h.currentSession, ES) && snapComps(h.currentSession.entityComponents, CS)
-//@     emits {C04,C06,C02,C01} [leaveSession(h); send(respond, hagallpb.ParticipantJoinResponse{Type: hagallpb.MsgType_MSG_TYPE_PARTICIPANT_JOIN_RESPONSE, RequestId: req.RequestId, SessionId: gid(serverid(R.DiscoveryService), h.currentSession.ID), SessionUuid: h.currentSession.SessionUUID, ParticipantId: h.currentParticipant.ID}); when !flag(h.FeatureFlags, featureflag.FlagDisableSessionState) =>> send(respond, hagallpb.SessionState{Type: hagallpb.MsgType_MSG_TYPE_SESSION_STATE, Participants: bind(PS), Entities: bind(ES), EntityComponents: bind(CS)}); when !flag(h.FeatureFlags, featureflag.FlagDisableParticipantJoinBroadcast) =>> Broadcast(h.currentSession, h.currentParticipant, hagallpb.ParticipantJoinBroadcast{Type: hagallpb.MsgType_MSG_TYPE_PARTICIPANT_JOIN_BROADCAST, OriginTimestamp: req.Timestamp, ParticipantId: h.currentParticipant.ID})]
+//@     emits {C04,C06,C02,C01,C08} [leaveSession(h); send(respond, hagallpb.ParticipantJoinResponse{Type: hagallpb.MsgType_MSG_TYPE_PARTICIPANT_JOIN_RESPONSE, RequestId: req.RequestId, SessionId: gid(serverid(R.DiscoveryService), h.currentSession.ID), SessionUuid: h.currentSession.SessionUUID, ParticipantId: h.currentParticipant.ID}); when !flag(h.FeatureFlags, featureflag.FlagDisableSessionState) =>> send(respond, hagallpb.SessionState{Type: hagallpb.MsgType_MSG_TYPE_SESSION_STATE, Participants: bind(PS), Entities: bind(ES), EntityComponents: bind(CS)}); when !flag(h.FeatureFlags, featureflag.FlagDisableParticipantJoinBroadcast) =>> Broadcast(h.currentSession, h.currentParticipant, hagallpb.ParticipantJoinBroadcast{Type: hagallpb.MsgType_MSG_TYPE_PARTICIPANT_JOIN_BROADCAST, OriginTimestamp: req.Timestamp, ParticipantId: h.currentParticipant.ID})]
 //@   complete behaviours
 //@   disjoint behaviours
 //@   loop 1:
